@@ -1,10 +1,12 @@
 #!/bin/bash
-# Applies every kept seeded change to /repo in turn, runs the quick check of its property and
+# Applies every kept seeded change to /repo in turn, runs the quick check of its property (or the one named in its caught_by file) and
 # expects a VIOLATION (exit 1); restores /repo after each. Usage: seeded_regress.sh [dir-prefix...]
 cd /verif
 out=/verif/target/seeded_regress.log; : > $out
 for d in seeded/*/; do
   name=$(basename $d); id=${name%%-*}
+  # a change that another property's check reports names that check in the file caught_by
+  [ -f $d/caught_by ] && id=$(cat $d/caught_by)
   if [ $# -gt 0 ]; then ok=0; for p in "$@"; do case $name in $p*) ok=1;; esac; done; [ $ok = 1 ] || continue; fi
   if ! git -C /repo apply --check $PWD/$d/patch.diff 2>/dev/null; then echo "$name: patch does not apply" | tee -a $out; continue; fi
   git -C /repo apply $PWD/$d/patch.diff
